@@ -121,7 +121,7 @@ func init() {
 				return 40_000
 			}, Run: c10Random,
 				Rule: "PRNG histories of 20..200 calls (one in 64: 3000..6000 calls), biased to stay legal for long stretches, with resets and errors in the middle and with runs of 15..65 calls of one drawing verb (new operands each) followed by a decode check",
-				Min:  map[string]int64{"state_error": 1000, "accepted_histories_decoded": 1000, "runs_of_one_verb": 5000, "runs_of_arcs": 300, "runs_of_255_or_more": 1000, "histories_beyond_64KiB": 20}},
+				Min:  map[string]int64{"state_error": 1000, "accepted_histories_decoded": 1000, "runs_of_one_verb": 5000, "runs_of_arcs": 300, "runs_of_255_or_more": 1000, "histories_beyond_64KiB": 20, "histories_assigning_the_resolution_field": 10000, "resolution_field_assigned_inside_an_open_path": 50000}},
 		},
 	})
 }
@@ -217,7 +217,14 @@ type h10 struct {
 	s        st10
 	firstErr error
 	ops      []rec.Op // calls since the last Reset (incl. it)
+	lowres   []bool   // per entry of ops: written under a latched low resolution
 	letters  []int
+	// toggle: the exported HighResolutionCoordinates field is assigned at
+	// arbitrary moments of the history, also inside open paths (it is not a call
+	// of the alphabet; the Encoder latches it at every StartPath, Reset clears it)
+	toggle         bool
+	field, latched bool
+	toggles        int
 }
 
 func (h *h10) start() {
@@ -228,6 +235,8 @@ func (h *h10) start() {
 	h.s = st10{}
 	h.firstErr = nil
 	h.ops = h.ops[:0]
+	h.lowres = h.lowres[:0]
+	h.field, h.latched = false, false
 	h.letters = h.letters[:0]
 }
 
@@ -244,6 +253,14 @@ func (h *h10) desc() interface{} {
 func (h *h10) call(l int, rng *run.Rng, o *gen.Opts, judge, decodeCheck bool) bool {
 	c := h.c
 	h.letters = append(h.letters, l)
+	if h.toggle && rng.Chance(1, 8) {
+		h.field = rng.Bool()
+		h.z.HighResolutionCoordinates, h.shadow.HighResolutionCoordinates, h.r.HighResolutionCoordinates = h.field, h.field, h.field
+		h.toggles++
+		if h.s.drawing && !h.s.err {
+			c.Count("resolution_field_assigned_inside_an_open_path", 1)
+		}
+	}
 	// both encoders must receive identical arguments
 	state := *rng
 	op, recorded := do10(&h.z, l, rng, o)
@@ -256,12 +273,18 @@ func (h *h10) call(l int, rng *run.Rng, o *gen.Opts, judge, decodeCheck bool) bo
 	if l == l10Reset {
 		h.firstErr = nil
 		h.ops = h.ops[:0]
+		h.lowres = h.lowres[:0]
+		h.field, h.latched = false, false
 	}
 	if _, es := h.shadow.Bytes(); h.s.err && h.firstErr == nil && es != nil {
 		h.firstErr = es
 	}
 	if recorded && !h.s.err {
+		if op.K == rec.KStartPath {
+			h.latched = h.field
+		}
 		h.ops = append(h.ops, op)
+		h.lowres = append(h.lowres, !h.latched)
 	}
 	if !judge {
 		return true
@@ -322,12 +345,20 @@ func (h *h10) call(l int, rng *run.Rng, o *gen.Opts, judge, decodeCheck bool) bo
 			return false
 		}
 		want := h.ops
+		shift := 0
 		if len(want) == 0 || want[0].K != rec.KReset {
 			pal := ivg.DefaultPalette
 			want = append([]rec.Op{{K: rec.KReset, VB: ivg.DefaultViewBox, Pal: &pal}}, want...)
+			shift = 1
 		}
 		res := ref.Parse(bz)
-		if i, why := compareEncoded(want, out, true, res.ShortZTO); i >= 0 {
+		lowresAt := func(i int) bool {
+			if j := i - shift; j >= 0 && j < len(h.lowres) {
+				return h.lowres[j]
+			}
+			return true
+		}
+		if i, why := compareEncodedPer(want, out, lowresAt, res.ShortZTO); i >= 0 {
 			c.Violate("decoded-stream-differs-from-history/"+why, map[string]interface{}{"history": h.desc(), "bytes": hx(bz), "index": i, "written": opStr(want, i), "delivered": opStr(out, i)})
 			return false
 		}
@@ -407,6 +438,9 @@ func c10Random(c *run.Ctx, idx uint64) {
 	o := gen.Opts{Coord: gen.Any, RegNum: gen.Any, Angle: gen.Any}
 	h := &h10{c: c}
 	h.start()
+	if h.toggle = r.Chance(1, 2); h.toggle {
+		c.Count("histories_assigning_the_resolution_field", 1)
+	}
 	hash := uint64(0)
 	runLeft, runPending := 0, false
 	c10RunVerb = -1
